@@ -1,0 +1,18 @@
+// Unless explicitly stated otherwise all files in this repository are licensed
+// under the Apache License Version 2.0.
+// This product includes software developed at Datadog (https://www.datadoghq.com/).
+// Copyright 2025-present Datadog, Inc.
+
+//go:build !verif
+
+package packets
+
+import "net/netip"
+
+func verifNewSink(_ netip.Addr) (Sink, error, bool) {
+	return nil, nil, false
+}
+
+func verifNewSource() (Source, error, bool) {
+	return nil, nil, false
+}
